@@ -126,8 +126,15 @@ def replay_case(ctx: vf.Ctx, data, want, classify, quiet=False):
     if not quiet:
         print('replay: call', call, '->', str(out)[:200])
     f = None
+    try:
+        cc.existing_points(c)
+        iter_exc = None
+    except Exception as e:
+        iter_exc = type(e).__name__ + ':' + str(e)[:120]
     if out.kind == 'E' and out.val.startswith('Internal'):
         f = dict(kind='internal_error', step=0, call=call, detail=out.val, pre=pre)
+    elif iter_exc is not None and 'views' not in want:
+        f = dict(kind='iteration_raised', step=0, call=call, detail=iter_exc, pre=pre)
     elif 'views' in want and cc.check_views(c):
         bad = cc.check_views(c)
         f = dict(kind='views', step=0, call=call, symptoms=[b[0] for b in bad], detail=bad[:3], pre=pre)
